@@ -339,7 +339,7 @@ def enumerate_universe():
     SZ = [1024, 2047, 2048, 3071, 3072, 4096]
     for larger in (False, True):
         for ps in SZ:
-            for qs in SZ:
+            for qs in SZ + [0, 1]:          # (0: a key whose probe got no usable answer is recorded with no size)
                 yield {'kind': 'pair', 'pol': {'hks': {'ssh-rsa': {'hostkey_size': ps}}, 'larger': larger}, 'peer': dict(base, key=['ssh-rsa'], hks={'ssh-rsa': [qs, '', 0]})}
                 yield {'kind': 'pair', 'pol': {'dh': {'g': ps}, 'larger': larger}, 'peer': dict(base, kex=['g'], dh={'g': qs})}
                 for pct, qct in itertools.product(('ssh-rsa', 'ssh-ed25519'), repeat=2):
